@@ -324,7 +324,7 @@ def c05_one_cut(v1: int, m: int, v2: int, rep: int, rsv: int, atyp: int, dlen: i
     return _run(RT[rt], s, [c1], disc)
 
 
-@cond(thorough=dict(parts=_split_dlen(_CLS), budget=1200))
+@cond(thorough=dict(parts=_split_dlen(_CLS_Q), budget=900))
 def c05_two_cuts(v1: int, m: int, v2: int, rep: int, rsv: int, atyp: int, dlen: int,
                  c1: int, c2: int, disc: int, rt: int, cls: int) -> str:
     """whole stream cut at two symbolic offsets, disconnect after a symbolic chunk (3 = never)"""
